@@ -279,13 +279,24 @@ struct Suite {
         for (size_t i = 0; i < N; ++i) { a.v[i] = Gen<T>::real(g); do { b.v[i] = Gen<T>::real(g); } while (std::abs(b.v[i]) < R(0.25)); }
         launder(a.v); launder(b.v);
         V va = loadu(a), vb = loadu(b);
-        V res = va / vb; out(res, o);
         long double u = unit_roundoff<T>();
-        for (size_t i = 0; i < N; ++i) {
-            std::complex<long double> w = std::complex<long double>(a.v[i].real(), a.v[i].imag()) / std::complex<long double>(b.v[i].real(), b.v[i].imag());
-            long double bound = 16 * u * std::abs(w);
-            c.near(o.v[i].real(), w.real(), bound, "complex v/v re", (long)i, "lane-bound:v/v");
-            c.near(o.v[i].imag(), w.imag(), bound, "complex v/v im", (long)i, "lane-bound:v/v");
+        typedef std::complex<long double> CL;
+        T sc; do { sc = Gen<T>::real(g); } while (std::abs(sc) < R(0.25)); sc = opaque(sc);
+        R sr = opaque((R)(std::abs(sc.real()) + R(0.5)));
+        // every spelling of the quotient is separate hand-written code: binary, compound, vector / complex scalar / real scalar operands on either side
+        for (int form = 0; form < 8; ++form) {
+            V res = va;
+            switch (form) { case 0: res = va / vb; break; case 1: res /= vb; break; case 2: res = va / sc; break; case 3: res /= sc; break;
+                            case 4: res = sc / vb; break; case 5: res = va / sr; break; case 6: res /= sr; break; default: res = sr / vb; break; }
+            out(res, o);
+            static const char* nm[] = { "complex v/v", "complex v/=v", "complex v/s", "complex v/=s", "complex s/v", "complex v/real", "complex v/=real", "complex real/v" };
+            for (size_t i = 0; i < N; ++i) {
+                CL A(a.v[i].real(), a.v[i].imag()), B(b.v[i].real(), b.v[i].imag()), S(sc.real(), sc.imag()), Rr((long double)sr, 0);
+                CL w = form <= 1 ? A / B : (form <= 3 ? A / S : (form == 4 ? S / B : (form <= 6 ? A / Rr : Rr / B)));
+                long double bound = 16 * u * std::abs(w);
+                c.near(o.v[i].real(), w.real(), bound, nm[form], (long)i, form == 0 ? "lane-bound:v/v" : "lane-bound:complex-division-form");
+                c.near(o.v[i].imag(), w.imag(), bound, nm[form], (long)i, form == 0 ? "lane-bound:v/v" : "lane-bound:complex-division-form");
+            }
         }
     }
 
@@ -341,6 +352,7 @@ struct Suite {
             abs_(c, a, If<has_abs<V>::value && !isC>());
             sqrt_(c, a, If<has_sqrt<V>::value && isF>());
             rcp_(c, g, If<has_rcp<V>::value && isF>());
+            if (it % 4 == 3) crcp_(c, g, If<has_rcp<V>::value && isC>());
             minmax(c, a, b, If<has_minf<V>::value && has_maxf<V>::value && !isC>());
         }
         if (!has_minf<V>::value) c.notes["missing.min/max"] = 1;
@@ -368,6 +380,20 @@ struct Suite {
         rsqrt_(c, a, If<has_rsqrt<V>::value>());
     }
     static void rcp_(Ctx&, Rng&, If<false>) {}
+    // complex reciprocal: 1/a within the same relative tolerance as the real approximate reciprocal (the complex versions divide exactly)
+    static void crcp_(Ctx& c, Rng& g, If<true>) {
+        Lanes a, o;
+        for (size_t i = 0; i < N; ++i) { do { a.v[i] = Gen<T>::real(g); } while (std::abs(a.v[i]) < R(0.25)); }
+        launder(a.v);
+        V res = rcp(loadu(a)); out(res, o);
+        for (size_t i = 0; i < N; ++i) {
+            std::complex<long double> w = std::complex<long double>(1, 0) / std::complex<long double>(a.v[i].real(), a.v[i].imag());
+            long double bound = std::abs(w) * 1.5L / 4096;
+            c.near(o.v[i].real(), w.real(), bound, "complex rcp re", (long)i, "lane-bound:complex-rcp");
+            c.near(o.v[i].imag(), w.imag(), bound, "complex rcp im", (long)i, "lane-bound:complex-rcp");
+        }
+    }
+    static void crcp_(Ctx&, Rng&, If<false>) {}
     static void rsqrt_(Ctx& c, const Lanes& a, If<true>) {
         V res = rsqrt(loadu(a)); Lanes o; out(res, o);
         for (size_t i = 0; i < N; ++i) { long double w = 1.0L / sqrtl((long double)a.v[i]); c.near(o.v[i], w, fabsl(w) * 1.5L / 4096, "rsqrt", (long)i, "lane-bound:rsqrt"); }
